@@ -288,6 +288,163 @@ Section StreamProofs.
       pose proof (size_nonneg L llen PS init_ps recog bump lineno llen_pos (map snd (rev (log (core x))))).
       destruct wf_geom as [? [? ?]]. destruct wf_off as [? ?]. unfold avail in *.
       split; [exact wf_cb|]. split; [lia|].
-      intros p Hp. subst r. destruct F as [[F _]|[_ [_ [F2 [F3 _]]]]]; [discriminate|]. lia.
+      intros p Hp. subst r. destruct F as [[F _]|[_ [_ [F2 [F3 _]]]]]; [discriminate|]. unfold avail in F2. lia.
+  Qed.
+
+  (* ---------------------------------------------------------------- short lines: the outcome *)
+  Hypothesis short : short_lines llen lines t0.
+  Local Notation CI := (CI L llen PS init_ps recog bump lineno lines t0).
+  Local Notation parse_phase := (parse_phase L llen PS recog lineno).
+
+  Definition outcome_for (f : bool) : result PS :=
+    if f then match fold_recog init_ps lines with
+              | inr (c, ln) => RErr c ln
+              | inl _ => RErr LOAD_ERROR 0
+              end
+    else spec lines t0.
+
+  Lemma ws_CI : forall sch s, CI s -> CI (ws sch s).
+  Proof. intros sch s [W ? ? ? ?]. constructor; try assumption. exact (ws_WF sch s W). Qed.
+
+  (* a line the recogniser rejects, found while the log holds only recognised lines: the fold over all lines fails there *)
+  Lemma fold_err : forall s c tk l r' p1, CI s ->
+    rest s = tk ++ l :: r' -> fold_recog (ps s) tk = inl p1 -> recog p1 l = inr c ->
+    fold_recog init_ps lines = inr (c, lineno p1).
+  Proof.
+    intros s c tk l r' p1 [W _ _ _ Hfed] Hr H1 H2.
+    pose proof (wf_m _ _ _ _ _ _ _ _ _ _ _ W) as Wm.
+    pose proof (spec_of_fold L llen PS init_ps recog bump lineno lines t0 s Wm Hfed) as Hs.
+    rewrite (wf_lines _ _ _ _ _ _ _ _ _ _ _ Wm), Hr.
+    rewrite (fold_recog_app L PS recog lineno), Hs.
+    exact (fold_recog_err L PS recog lineno tk l r' (ps s) p1 c H1 H2).
+  Qed.
+
+  (* everything delivered and nothing left to read: at the head of the loop only an unterminated rest can be unparsed *)
+  Lemma all_read_fold : forall s, CI s -> unread s = 0 -> fold_recog init_ps lines = inl (ps s).
+  Proof.
+    intros s [W Hpr _ _ Hfed] Hu.
+    pose proof (wf_m _ _ _ _ _ _ _ _ _ _ _ W) as Wm.
+    pose proof (wf_partial _ _ _ _ _ _ _ _ _ _ _ W Hpr) as Hp. unfold partial in Hp.
+    pose proof (wf_acct _ _ _ _ _ _ _ _ _ _ _ Wm) as Wa.
+    pose proof (wf_pr_off _ _ _ _ _ _ _ _ _ _ _ Wm Hpr) as Wo.
+    assert (Hrest : rest s = []).
+    { destruct (rest s) as [|l t]; [reflexivity|]. cbn [Model.size] in Wa.
+      pose proof (size_nonneg L llen PS init_ps recog bump lineno llen_pos t). lia. }
+    pose proof (spec_of_fold L llen PS init_ps recog bump lineno lines t0 s Wm Hfed) as Hs.
+    rewrite (wf_lines _ _ _ _ _ _ _ _ _ _ _ Wm), Hrest, app_nil_r. exact Hs.
+  Qed.
+
+  (* a body that will fail still has a non-empty slice to read from: the iteration cannot end the parse
+     except with a line the recogniser rejects *)
+  Lemma sar_done_reject : forall s c1 r s', CI s -> 0 < c1 ->
+    sar (Z.max 0 (Z.min (space (buf s)) c1)) [] (space (buf s)) s = Done r s' ->
+    exists c tk l r' p1,
+      r = RErr c (lineno p1) /\ rest s = tk ++ l :: r' /\ fold_recog (ps s) tk = inl p1 /\ recog p1 l = inr c.
+  Proof.
+    intros s c1 r s' [W Hpr Hf1 Hf0 Hfed] Hc H.
+    pose proof (wf_m _ _ _ _ _ _ _ _ _ _ _ W) as Wm.
+    pose proof (wf_jf _ _ _ _ _ _ _ _ _ _ _ W Hpr) as Hjf.
+    pose proof (wf_fc _ _ _ _ _ _ _ _ _ _ _ W Hpr) as Hfca.
+    destruct Wm as [Wg Wc Wh [Wo1 Wo2] Wa Ws Wu Wpo Wpc Wtg Wcb Wms Wt Wpl Wl Wr Wd].
+    pose proof (caps_bounds L PS init_ps recog bump lineno _ Wc) as Hcb.
+    assert (Hsp : 0 <= space (buf s)) by (destruct Wg as [? [? ?]]; unfold space; lia).
+    set (sp := space (buf s)) in *. set (n := Z.max 0 (Z.min sp c1)) in *.
+    unfold Model.step_after_read in H.
+    destruct (n =? 0) eqn:En.
+    - apply Z.eqb_eq in En. exfalso. assert (Hs0 : sp = 0) by (subst n; lia).
+      cbn [jf fc tg total ps buf] in H. rewrite Hjf in H. cbn [andb] in H.
+      destruct (fc s) eqn:Efc.
+      + specialize (Hfca eq_refl). destruct Wg as [? [? ?]]. unfold space, avail in *. subst sp. lia.
+      + replace (sp =? 0) with true in H by (symmetry; apply Z.eqb_eq; exact Hs0).
+        destruct (tg s) eqn:Etg.
+        * specialize (Wtg eq_refl). unfold space in *. subst sp. lia.
+        * cbn [negb andb] in H. destruct (MAX_CAP <? Z.min (b_cap (fill (buf s) n) * 2) U64MAX); discriminate.
+    - apply Z.eqb_neq in En.
+      assert (P : pr (set_tg L PS (mkst (fill (buf s) n) (fc s) (tg s) (pr s) (jf s) (total s) (ps s) (rest s) (off s)
+                                   (unread s - n) [] (ncb s) (cbsum s) (nrd s + 1) (Z.max (maxsp s) sp) (log s)) false) = false)
+        by exact Hpr.
+      destruct (parse_phase_done L llen PS recog bump lineno llen_pos _ r s' P H) as [c [tk [l [r' [p1 Q]]]]].
+      exists c, tk, l, r', p1. exact Q.
+  Qed.
+
+  Lemma step_stream_unfold : forall x c1 pend1, WF (core x) -> pr (core x) = false ->
+    refill (cur x) (pend x) = Some (c1, pend1) ->
+    step_stream x = wrap (c1 - Z.max 0 (Z.min (space (buf (core x))) c1)) pend1
+                         (sar (Z.max 0 (Z.min (space (buf (core x))) c1)) [] (space (buf (core x))) (core x)).
+  Proof.
+    intros x c1 pend1 W Hpr R. unfold Stream.step_stream. rewrite R, Hpr.
+    rewrite (geom_ok_true _ (wf_geom _ _ _ _ _ _ _ _ _ _ _ (wf_m _ _ _ _ _ _ _ _ _ _ _ W))). reflexivity.
+  Qed.
+
+  Lemma stream_step_ci : forall x, CI (core x) -> RI x ->
+    match step_stream x with
+    | SNext x' => CI (core x')
+    | SDone r x' => r = outcome_for (fails (pend x))
+    | SPanic _ => False
+    end.
+  Proof.
+    intros x Hci [Hc Hu]. pose proof Hci as [W Hpr _ _ _].
+    destruct (refill (cur x) (pend x)) as [[c1 pend1]|] eqn:R.
+    - destruct (refill_some _ _ _ _ Hc R) as [A [B [C D]]].
+      pose proof (delivered_nonneg pend1) as Hd.
+      assert (Hc1 : 0 <= c1 <= unread (core x)) by lia.
+      assert (Hz : c1 = 0 -> unread (core x) = 0) by (intros Q; destruct (D Q); lia).
+      destruct (step_stream_char x c1 pend1 R Hc1 Hz) as [E _]. cbn zeta in E.
+      pose proof (step_stream_unfold x c1 pend1 W Hpr R) as U.
+      set (n := Z.max 0 (Z.min (space (buf (mid (core x)))) c1)) in *.
+      set (sch := if n =? 0 then [] else [n]) in *.
+      pose proof (ci_step L llen PS init_ps recog bump lineno llen_pos lines t0 short
+                          (ws sch (core x)) (ws_CI sch _ Hci)) as CS.
+      rewrite E in *. clear E.
+      destruct (step (ws sch (core x))) as [s'|r s'|t]; cbn [ProofsAsync.lift Stream.wrap core] in *.
+      + exact (ws_CI [] _ CS).
+      + subst r. unfold outcome_for. destruct (fails (pend x)) eqn:Ef; [|reflexivity].
+        assert (Hpos : 0 < c1).
+        { destruct (Z.eq_dec c1 0) as [Q|Q]; [|lia]. destruct (D Q) as [_ D2]. congruence. }
+        destruct (sar (Z.max 0 (Z.min (space (buf (core x))) c1)) [] (space (buf (core x))) (core x)) as [s2|r2 s2|t2] eqn:S;
+          cbn [Stream.wrap] in U; try discriminate.
+        inversion U as [[U1 U2]].
+        destruct (sar_done_reject (core x) c1 r2 s2 Hci Hpos S) as [c [tk [l [r' [p1 [Q1 [Q2 [Q3 Q4]]]]]]]].
+        pose proof (fold_err (core x) c tk l r' p1 Hci Q2 Q3 Q4) as FE.
+        unfold Model.spec. rewrite FE. reflexivity.
+      + exact CS.
+    - destruct (refill_none _ _ Hc R) as [N1 N2].
+      unfold Stream.step_stream. rewrite R, Hpr.
+      rewrite (geom_ok_true _ (wf_geom _ _ _ _ _ _ _ _ _ _ _ (wf_m _ _ _ _ _ _ _ _ _ _ _ W))). cbn [negb andb].
+      rewrite N2. unfold outcome_for.
+      pose proof (delivered_nonneg (pend x)).
+      rewrite (all_read_fold (core x) Hci ltac:(lia)). reflexivity.
+  Qed.
+
+  Lemma stream_run_ci : forall n x r x', CI (core x) -> RI x -> WF (core x) ->
+    iter_nat_s n x = SDone r x' -> r = outcome_for (fails (pend x)).
+  Proof.
+    induction n as [|n IH]; intros x r x' Hci Ri W H; cbn [iter_nat_s] in H; [discriminate|].
+    pose proof (stream_step_ci x Hci Ri) as CS. pose proof (stream_step_wf x W Ri) as SW.
+    destruct (step_stream x) as [x1|r1 x1|t].
+    - destruct SW as [W1 [R1 [_ F1]]]. rewrite <- F1. exact (IH x1 r x' CS R1 W1 H).
+    - injection H as H1 H2. rewrite <- H1. exact CS.
+    - contradiction.
+  Qed.
+
+  (* chunk independence for parse_async, full strength: whatever the body does — chunks of any size, EMPTY
+     chunks anywhere, a failure after any chunk — the outcome is [spec_stream]: the schedule-free verdict on
+     the delivered bytes when the body is delivered in full; when the body fails, the error of the first
+     delivered complete line the recogniser rejects, else the load error (never Ok). *)
+  Lemma stream_is_spec : forall script, delivered script = ilen ->
+    exists x, drive_stream lines t0 script
+              = Ret (spec_stream L PS init_ps recog lineno lines t0 script, x).
+  Proof.
+    intros script Hd. destruct (stream_total script Hd) as [r [x [H _]]]. exists x. rewrite H. f_equal. f_equal.
+    unfold Stream.drive_stream in H. rewrite iter_stream_nat in H.
+    destruct (iter_nat_s (Pos.to_nat (fuel_for L llen lines t0)) (init_stream lines t0 script)) as [x1|r1 x1|t] eqn:E;
+      try discriminate.
+    inversion H; subst r1 x1.
+    assert (Q : r = outcome_for (fails (pend (init_stream lines t0 script)))).
+    { eapply stream_run_ci; [| |  |exact E].
+      - unfold Stream.init_stream. cbn [core]. apply ci_init. exact llen_pos.
+      - exact (init_RI script Hd).
+      - unfold Stream.init_stream. cbn [core]. apply init_wf'. exact llen_pos. }
+    rewrite Q. unfold outcome_for, Stream.spec_stream, Stream.init_stream. cbn [pend]. reflexivity.
   Qed.
 End StreamProofs.
